@@ -13,6 +13,7 @@ import (
 	"os"
 	"path/filepath"
 	"sort"
+	"sync"
 	"strings"
 	"syscall"
 	"time"
@@ -80,6 +81,92 @@ outputBufferPairs:
         maxDuration: 30m
 `
 
+// richConfigTemplate: every transform that keeps scratch state runs on the connection threads (input extractions) and in the
+// pipelines (transformations); key fields and metric keys come out of extractions, so routing depends on them too.
+const richConfigTemplate = `
+schema:
+  fields: [facility, level, time, host, app, pid, source, extradata, log, class, task, note, memo]
+  maxFields: 15
+inputs:
+  - type: syslog
+    address: localhost:0
+    levelMapping: [off, fatal, crit, error, warn, notice, info, debug]
+    extractions:
+      - type: extractHead
+        key: log
+        pattern: '\[*\] '
+        maxLen: 24
+        destKey: class
+      - type: extractTail
+        key: source
+        pattern: ':*'
+        maxLen: 24
+        destKey: task
+      - type: redactEmail
+        key: log
+        metricLabel: redacted
+      - type: unescape
+        key: log
+      - type: addFields
+        fields:
+          note: $host/$task/$class
+      - type: truncate
+        key: note
+        maxLen: 14
+        suffix: '~'
+      - type: if
+        match:
+          class: !!str-any
+        then:
+          - type: addFields
+            fields:
+              task: $task+$class
+      - type: delFields
+        keys: [facility, pid, extradata]
+orchestration:
+  type: byKeySet
+  keys: [app]
+  tag: TAGTEMPLATE
+metricKeys: METRICKEYS
+transformations:
+  - type: drop
+    match:
+      source: dropme
+    percentage: 100
+    metricLabel: filtered
+  - type: parseTime
+    key: time
+    errorLabel: timeError
+  - type: addFields
+    fields:
+      memo: n=$note c=$class mail=owner-$host@corp.example.org
+  - type: redactEmail
+    key: memo
+    metricLabel: memoRedacted
+  - type: truncate
+    key: memo
+    maxLen: 40
+    suffix: '...'
+outputBufferPairs:
+  - name: out1
+    buffer:
+      type: hybridBuffer
+      rootPath: ROOT
+      maxBufSize: 200KB
+    output:
+      type: OUTPUTTYPE
+      serialization:
+        environmentFields: [host]
+        hiddenFields: [source]
+        rewriteFields: {}
+      messageMode: PackedForward
+      upstream:
+        address: localhost:24224
+        tls: false
+        secret: ""
+        maxDuration: 30m
+`
+
 // verifOutput is the real fluentdForward output configuration with one difference: the forwarder is the real
 // baseoutput.ClientWorker over the scripted upstream. It is registered as output type "verifFluentd" so that every loader —
 // also the one a configuration reload creates internally — builds pipelines that end in the scripted upstream.
@@ -99,6 +186,9 @@ func (cfg *verifOutput) NewForwarder(parentLogger logger.Logger, args base.Chunk
 }
 
 type op struct {
+	extra  string // rich scenarios: text appended to the message
+	class  string // rich scenarios: "[class] " in front of the message (cut off by extractHead on the connection thread)
+	task   string // rich scenarios: ":task" behind the source (cut off by extractTail on the connection thread)
 	kind   string // "line" or "flush"
 	app    string
 	drop   bool
@@ -138,6 +228,8 @@ type params struct {
 	idleBeforeStop time.Duration // the driver lets this much virtual time pass before the stop of every generation but the last (cost-free)
 	retryInterval time.Duration // defs.ForwarderRetryInterval (default 10 s): below the 1 s ticker a failed session is followed by the next one within the bound
 	sinkBytes   int // defs.IntermediateBufferMaxTotalBytes (bytes per batch, same two places), default 4 MiB
+	rich        bool // statement-granularity scenarios: a configuration with stateful transforms on the connection threads and in the pipelines, every record compared with a run in which the connections are served one after the other
+	sequential  bool // reference run: connection i+1 starts after connection i has finished
 	sinkBatch   int // defs.IntermediateBufferMaxNumLogs (records per batch at the input and per key set at the orchestrator sink), default 500
 }
 
@@ -162,6 +254,7 @@ type transmit struct {
 }
 
 type world struct {
+	ref map[string]string // rich scenarios: stamp -> decoded record of the sequential reference run
 	ackedAtReturn2 map[string]bool // second output pair (twoPairs)
 	diskAtReturn2  map[string]bool
 	badLines      int // malformed lines handed to the parser in generation 0 (expected: dropped at the input)
@@ -210,6 +303,7 @@ func (w *world) violate(key, format string, args ...any) {
 
 var logs = &hutil.LogCapture{}
 var flagLogs = flag.Bool("logs", false, "echo agent logs")
+var flagFine = flag.Bool("fine", false, "statement-granularity scenarios (the harness must have been built with instr -fine)")
 var flagDump = flag.Bool("dumpmetrics", false, "print non-zero metrics at every stop (C19)")
 
 func (w *world) stateHash() uint64 {
@@ -311,6 +405,11 @@ func (w *world) newConsumerWith(parentLogger logger.Logger, decoder base.ChunkDe
 			}
 		}
 		for i, s := range stamps {
+			if w.ref != nil {
+				if want, ok := w.ref[s]; ok && want != recs[i] {
+					w.violate("isolation:record-differs-from-sequential-run", "record %s was delivered as %s; with the connections served one after the other it is %s", s, clipStr(recs[i], 400), clipStr(want, 400))
+				}
+			}
 			w.checkContent(s, recs[i])
 			jk := s
 			if idx < len(w.envOut) && w.envOut[idx] != "" && w.p.twoPairs {
@@ -419,9 +518,34 @@ func (w *world) diskStampsIn(dir string) (map[string]bool, int) {
 	return out, files
 }
 
+var captureWorld func(*world)
+
 func makeRun(p params) explore.RunFunc {
+	var refOnce sync.Once
+	var ref map[string]string
+	var refErr string
 	return func(choose func(*vsched.ChoicePoint) int, trace bool) (explore.Verdict, *vsched.Result) {
 		var verdict explore.Verdict
+		if p.rich && !p.sequential {
+			// the reference: the same traffic with the connections served one after the other, healthy upstream, one generation
+			refOnce.Do(func() {
+				q := p
+				q.sequential, q.gens, q.flushAlt, q.advances = true, 1, false, 0
+				q.conns1 = nil
+				var rw *world
+				captureWorld = func(w *world) { rw = w }
+				v, res := makeRun(q)(func(*vsched.ChoicePoint) int { return 0 }, false)
+				captureWorld = nil
+				if v.Violation != "" || res == nil || res.Status != "ok" || rw == nil {
+					refErr = fmt.Sprintf("sequential reference run failed: %s", v.Violation)
+					return
+				}
+				ref = rw.jsonOf
+			})
+			if refErr != "" {
+				return explore.Verdict{Violation: refErr, Key: "engine:reference-run", Outcome: "engine"}, &vsched.Result{Status: "ok"}
+			}
+		}
 		logs.Reset()
 		logs.Echo = *flagLogs
 		defs.BufferMaxNumChunksInMemory = p.memCap
@@ -454,7 +578,10 @@ func makeRun(p params) explore.RunFunc {
 		} else {
 			fluentdforward.VerifSetChunkLimits(p.chunkRecs, 7*1024*1024)
 		}
-		w := &world{p: p, jsonOf: map[string]string{}}
+		w := &world{p: p, jsonOf: map[string]string{}, ref: ref}
+		if captureWorld != nil {
+			captureWorld(w)
+		}
 		w.root = hutil.ScratchRoot("agentmc")
 		defer os.RemoveAll(w.root)
 		w.cfgPath = filepath.Join(w.root, "config.yml")
@@ -466,7 +593,11 @@ func makeRun(p params) explore.RunFunc {
 		if tagT == "" {
 			tagT = "t.$app"
 		}
-		cfgText := strings.ReplaceAll(strings.ReplaceAll(strings.ReplaceAll(configTemplate, "ROOT", filepath.Join(w.root, "q")), "METRICKEYS", mk), "TAGTEMPLATE", tagT)
+		tmplText := configTemplate
+		if p.rich {
+			tmplText = richConfigTemplate
+		}
+		cfgText := strings.ReplaceAll(strings.ReplaceAll(strings.ReplaceAll(tmplText, "ROOT", filepath.Join(w.root, "q")), "METRICKEYS", mk), "TAGTEMPLATE", tagT)
 		if p.noDir {
 			// a plain file where the buffer root should be: no queue directory can be created
 			os.WriteFile(filepath.Join(w.root, "blocked"), []byte("x"), 0o644)
@@ -494,11 +625,15 @@ func makeRun(p params) explore.RunFunc {
 		w.cfgText = cfgText
 		currentWorld = w
 		os.WriteFile(w.cfgPath, []byte(cfgText), 0o644)
+		var exh func() bool
+		if p.rich && !p.sequential {
+			exh = explore.Exhausted
+		}
 		fsc := 0
 		if p.delayB {
 			fsc = 1
 		}
-		res := vsched.Run(vsched.Options{Choose: choose, Trace: trace, MaxSteps: 200000, StateKeys: true, EnvState: w.stateHash, ForcedSwitchCost: fsc}, func() {
+		res := vsched.Run(vsched.Options{Choose: choose, Trace: trace, MaxSteps: 200000, StateKeys: !p.rich, EnvState: w.stateHash, ForcedSwitchCost: fsc, Exhausted: exh}, func() {
 			verdict = drive(w)
 		})
 		switch res.Status {
@@ -574,7 +709,7 @@ func (w *world) checkContent(stamp, recJSON string) {
 	m, _ := arr[2].(map[string]any)
 	logv, _ := m["log"].(string)
 	want := fmt.Sprintf("%s payload of %s", stamp, stamp)
-	if !strings.HasPrefix(logv, want) || (l.bytes < 1000 && logv != want) {
+	if !strings.HasPrefix(logv, want) || (l.bytes < 1000 && logv != want && !w.p.rich) {
 		w.violate("record-altered", "record %s was delivered with log=%q, sent %q", stamp, clipStr(logv, 120), want)
 	}
 	if app, _ := m["app"].(string); app != l.app {
@@ -592,6 +727,21 @@ func clipStr(s string, n int) string {
 		return s[:n] + "..."
 	}
 	return s
+}
+
+// richLine: "[class] " in front of the message and ":task" behind the source are cut off by the input extractions
+func richLine(host string, o op, source, stamp string) string {
+	msg := stamp + " payload of " + stamp
+	if o.class != "" {
+		msg = "[" + o.class + "] " + msg
+	}
+	if o.extra != "" {
+		msg += " " + o.extra
+	}
+	if o.task != "" {
+		source += ":" + o.task
+	}
+	return fmt.Sprintf("<13>1 2020-01-02T03:04:05.678Z %s %s 77 %s - %s", host, o.app, source, msg)
 }
 
 func syslogLine(host, app, source, stamp string) string {
@@ -650,6 +800,9 @@ func drive(w *world) explore.Verdict {
 				cidx, script := cidx, script
 				ci := ciBase + cidx
 				vsched.Go(fmt.Sprintf("conn%d", ci), func() {
+					if p.sequential && cidx > 0 {
+						vsched.WaitUntil("conn.wait-for-previous", time.Time{}, func() bool { return w.connDone[cidx-1] })
+					}
 					sink := receiver.NewSink(fmt.Sprintf("10.0.0.%d:1000", ci+1), base.ClientNumber(10+ci))
 					seqn := 0
 					for _, o := range script {
@@ -669,6 +822,9 @@ func drive(w *world) explore.Verdict {
 							}
 							stamp := fmt.Sprintf("c%dr%d", ci, seqn)
 							line := syslogLine(host, o.app, source, stamp)
+							if p.rich {
+								line = richLine(host, o, source, stamp)
+							}
 							if o.pad > 0 {
 								line += " " + strings.Repeat("p", o.pad)
 							}
@@ -1442,7 +1598,7 @@ func scenarios(prop string) []*explore.Scenario {
 		if thorough > -2 {
 			b["thorough"] = thorough
 		}
-		out = append(out, &explore.Scenario{Name: p.name, Bound: b, Run: makeRun(p), MinOutcomes: 1})
+		out = append(out, &explore.Scenario{Name: p.name, Bound: b, Run: makeRun(p), MinOutcomes: 1, SkipExhausted: p.rich})
 	}
 	full := fakeup.Options{ConnectAlt: 2, SendAlt: 3, PingAlt: 1, AckAlt: 4, LateDelay: 25 * time.Second}
 	L := func(app string) op { return op{kind: "line", app: app} }
@@ -1531,6 +1687,11 @@ func scenarios(prop string) []*explore.Scenario {
 		// covered by the dropped-chunk counter
 		ovf := params{name: "queue-overflow/1conn-6rec-1key", conns: [][]op{{L("appA"), L("appA"), L("appA"), L("appA"), L("appA"), L("appA")}}, gens: 3, chunkRecs: 1, memCap: 0, gen0Down: true, queueCap: 2, opt: full, advances: 1}
 		add(ovf, 1, 2)
+	}
+	if *flagFine {
+		out = nil
+		fineScenarios(prop, add)
+		return out
 	}
 	if prop == "C06" {
 		// routing and tagging in the composed agent with pooled-size records of two key sets: the pipeline's tag and ID must
@@ -1629,6 +1790,30 @@ func scenarios(prop string) []*explore.Scenario {
 	return out
 }
 
+// fineScenarios: the composed agent built with statement-granularity scheduling points in the input, transform, rewrite,
+// base, orchestrate and util packages (instr -fine). Two or three connections carry records whose every field differs from
+// connection to connection; the oracle is differential (each delivered record equals the one of the sequential reference run)
+// plus all the oracles of the property the scenarios are run for (routing and tag for C06, counters for C19).
+func fineScenarios(prop string, add func(p params, quick, thorough int)) {
+	R := func(app string, k int) op {
+		return op{kind: "line", app: app, host: fmt.Sprintf("host%d", k), source: fmt.Sprintf("src%d", k), class: fmt.Sprintf("Klass%d", k),
+			task: fmt.Sprintf("task-%d%d%d", k, k, k), extra: fmt.Sprintf("from user%d@corp%d.example.com tab\\t%d", k, k, k)}
+	}
+	healthy := fakeup.Options{}
+	// two connections, one record each, different key sets: the connection threads overlap in parser, extractions and key-set lookup
+	add(params{name: "fine/2conn-1rec-2key", rich: true, conns: [][]op{{R("appA", 1)}, {R("appB", 2)}}, gens: 1, chunkRecs: 1, memCap: 2, opt: healthy, metricKeys: "[host, class]"}, 1, 2)
+	// the same key set from both connections: the pipeline of appA gets batches of both, the per-connection key-set caches collide
+	add(params{name: "fine/2conn-2rec-1key", rich: true, conns: [][]op{{R("appA", 1), R("appA", 3)}, {R("appA", 2), R("appA", 4)}}, gens: 1, chunkRecs: 2, memCap: 2, opt: healthy, metricKeys: "[host, class]"}, 1, 1)
+	// two key sets on each connection, crossed: both pipelines transform at the same time as both connection threads
+	add(params{name: "fine/2conn-2rec-2key-crossed", rich: true, conns: [][]op{{R("appA", 1), R("appB", 3)}, {R("appB", 2), R("appA", 4)}}, gens: 1, chunkRecs: 1, memCap: 2, opt: healthy, metricKeys: "[host, class]"}, 1, 1)
+	// a filtered record and a malformed line among them: drop counters and input drop counters under overlap
+	add(params{name: "fine/2conn-drop-and-bad", rich: true, conns: [][]op{{R("appA", 1), {kind: "bad", shape: "no-pri"}, R("appA", 3)}, {{kind: "line", app: "appA", drop: true, host: "host2", class: "Klass2", task: "task-2"}, R("appB", 4)}}, gens: 1, chunkRecs: 1, memCap: 2, opt: healthy, metricKeys: "[host]"}, 1, 1)
+	if prop != "C19" {
+		// three connections (thorough only at bound 1: the third thread multiplies the points)
+		add(params{name: "fine/3conn-1rec", rich: true, conns: [][]op{{R("appA", 1)}, {R("appB", 2)}, {R("appA", 3)}}, gens: 1, chunkRecs: 1, memCap: 2, opt: healthy, metricKeys: "[host, class]"}, -2, 1)
+	}
+}
+
 func main() {
 	prop := "C01"
 	for i, a := range os.Args {
@@ -1637,6 +1822,11 @@ func main() {
 		}
 	}
 	flag.String("prop", "C01", "property id (C01, C05, C19)")
+	for _, a := range os.Args {
+		if a == "-fine" || a == "-fine=true" {
+			*flagFine = true
+		}
+	}
 	logger.SetLogLevel(logger.InfoLevel)
 	logger.SetOutput(logs)
 	bconfig.VerifAddOutputType("verifFluentd", func() bconfig.LogOutputConfig { return &verifOutput{} })
